@@ -88,7 +88,7 @@ Seq3 == UNION {{<<"dseq", f, HashIp(a, b, c), a, b, c, 0, 0>> : f \in SeqFamsOf(
                <<a, b, c>> \in {x \in SeqSteps \X SeqSteps \X SeqSteps : Strided(x[1], x[2], x[3])}}
 \* a plain shorthand first (all sides known), two steps, then one more plain step
 Seq4 == UNION {{<<"dseq", f, HashIp(a, b, c), s, a, b, c, 0>> : f \in SeqFamsOf(s, a, b + c)} :
-               s \in {Code(5, 1), Code(8, 1)}, <<a, b, c>> \in {x \in SeqSteps \X SeqSteps \X {Code(1, 1), Code(4, 1), Code(5, 1)} : SeqStride = 1 \/ (x[1] + x[2] + x[3]) % 3 = 0}}
+               s \in {Code(5, 1), Code(8, 1)}, <<a, b, c>> \in SeqSteps \X SeqSteps \X {Code(1, 1), Code(4, 1), Code(5, 1)}}
 \* five longhands: side s twice in a row (classes c1, c2) at position p, the other sides plain, in order
 Others(s) == SetToSortSeq((1..4) \ {s}, <)
 L5Step(s, p, c1, c2, i) == IF i = p THEN Code(s, c1) ELSE IF i = p + 1 THEN Code(s, c2) ELSE Code(Others(s)[IF i < p THEN i ELSE i - 2], 1)
